@@ -349,9 +349,10 @@ Definition spec_ok (c : case) : bool :=
     | None => true
     | Some q => forallb (fun a => String.eqb (spec_qaction (the_decls c) q a) (qa_obs a)) (q_acts q)
     end
-  else if is_cyclic c && nodup_b (map fst (the_decls c)) then
+  else if is_cyclic c && nodup_b (map fst (the_decls c)) && negb (str_in "object" (map fst (the_decls c))) then   (* wf_section and cyclic: C06_cyclic_rejected *)
     match c_types c with Raised => true | Returned _ => false end
-  else true.                                                  (* two parents / object as a child: no expectation *)
+  else true.                                                  (* two parents / object as a child: no expectation from the property
+                                                                 (what the model does there: Props/C06.v C06_any_section_* ) *)
 
 Definition agree (c : case) : bool :=
   obs_eqb String.eqb (model_types c) (c_types c) &&
